@@ -40,11 +40,15 @@ MOD_CALLS = [
     ("List", "List->find_last([1, 2, 1], 1)"), ("List", "List->first([1, 2])"), ("List", "List->last([1, 2])"),
     ("Stat", "Stat->geometric_mean([1, 4])"), ("Stat", "Stat->harmonic_mean([1, 4])"), ("Bitwise", "Bitwise->bit_rotate_left_32(1, 3)"),
     ("Random", "do Random->set_seed(5); Random->choice([1, 2, 3]) end"), ("Random", "do Random->set_seed(7); Random->sample([1, 2, 3, 4], 2) end"),
+    # a user module found through the module path (written by the shard)
+    ("umod", "umod->probe()"), ("umod", "umod->uselen([1, 2, 3])"), ("umod", "umod->twice(4)"), ("umod", "umod->probe2()"),
     ("Set", "Set->union(<<1, 2>>, <<2, 3>>)"), ("Set", "Set->intersection(<<1, 2>>, <<2, 3>>)"), ("Set", "Set->diff(<<1, 2>>, <<2, 3>>)"),
     ("Set", "Set->symmetric_diff(<<1, 2>>, <<2, 3>>)"), ("Stat", "Stat->mean([1, 2, 6])"), ("Stat", "Stat->median([3, 1, 2])"),
     ("Stat", "Stat->median_low([3, 1, 2, 4])"), ("Stat", "Stat->median_high([3, 1, 2, 4])"), ("Bitwise", "Bitwise->bit_and(6, 3)"),
 ]
-SHADOW_EXTRA = ["x", "lst", "result", "i", "n", "acc", "a", "b", "l", "s", "fn_", "item", "idx", "value", "key", "list", "obj", "count", "size", "seta", "setb"]
+UMOD_SRC = ("def probe() do shadow_me catch all 'undefined' end;\ndef probe2() do [shadow_me, lst, result] catch all 'undefined' end;\n"
+            "def uselen(x) length(x);\ndef twice(x) x * 2;\ndef _private_helper() 1;\n")
+SHADOW_EXTRA = ["shadow_me", "x", "lst", "result", "i", "n", "acc", "a", "b", "l", "s", "fn_", "item", "idx", "value", "key", "list", "obj", "count", "size", "seta", "setb"]
 
 
 def run_modscope(spec, ctx):
@@ -54,6 +58,12 @@ def run_modscope(spec, ctx):
     Non-legacy interpreters (modules are loaded on demand there); one fresh interpreter per program."""
     import ckl.functions
     r = ctx.rng
+    import os
+    import ckl.values as V
+    moddir = os.path.join(os.getcwd(), "c03mods")
+    os.makedirs(moddir, exist_ok=True)
+    with open(os.path.join(moddir, "umod.ckl"), "w") as f:
+        f.write(UMOD_SRC)
     base_it, _ = core.new_interpreter(secure=True, legacy=False)
     # (not the functions the operators of the requirer's own lambdas stand for: shadowing `greater` changes `v > 1`
     #  in the requirer's code, rightly)
@@ -68,6 +78,8 @@ def run_modscope(spec, ctx):
         body = "[%s]" % ", ".join(calls)
         outs = []
         shadows = r.sample(names, r.randint(3, 12))
+        if mod == "umod" and "shadow_me" not in shadows:
+            shadows.append("shadow_me")
         sh_defs = "; ".join((("def %s = 'mine'" % n) if r.random() < 0.4 else ("def %s(p_...) 'mine'" % n)) for n in shadows)
         params = ", ".join(r.sample([n for n in names if n not in ("fn_",)], r.randint(1, 4)))
         variants = [("plain", "require %s; %s" % (mod, body)),
@@ -76,9 +88,14 @@ def run_modscope(spec, ctx):
                     ("require-inside-function", "def loader_(%s) do require %s; %s end; loader_(%s)" % (
                         params, mod, body, ", ".join("'mine'" for _ in params.split(", ")))),
                     ("require-inside-function-with-locals", "def loader_() do %s; require %s; %s end; loader_()" % (sh_defs, mod, body))]
+        path_in_session = r.random() < 0.5
         for tag, src in variants:
             it, out = core.new_interpreter(secure=True, legacy=False)
             env = ckl.functions.Environment()
+            mp = V.ValueList()
+            mp.addItem(V.ValueString(moddir))
+            # the module path as an embedding host would set it (base scope) or as the command-line hosts do (session scope)
+            (it.environment if path_in_session else it.base_environment).put("checkerlang_module_path", mp)
             o = core.observe(lambda: it.interpret(src, "c03mod", env), 3000000)
             outs.append((tag, src, o.kind, core.safe_str(o.value if o.kind == "value" else getattr(o.exc, "msg", o.exc), 300)))
             ctx.count("modscope_programs")
